@@ -13,7 +13,7 @@ SPELL = [b'1', b'1.0', b'1e0', b'10e-1', b'2', b'2.50', b'2.5', b'"a"', b'"\\u00
          b'1e15', b'1000000000000000', b'1.0e15', b'9007199254740991', b'9007199254740991.0', b'9.007199254740991e15', b'1e18', b'1000000000000000000', b'123456789012345680', b'1.2345678901234568e17', b'-1e15', b'-1000000000000000', b'[1e16]', b'[10000000000000000]']
 
 def run(ctx):
-    rnd = ctx['rnd']; n = 300 if ctx['tier'] == 'quick' else 12000
+    rnd = ctx['rnd']; n = 600 if ctx['tier'] == 'quick' else 12000
     cases = []; meta = []
     for i in range(n):
         m = rnd.choice([0, 1, 3, 8, 20, 40])
